@@ -168,6 +168,9 @@ def case_build(ctx, p):
             ctx.CHECKS.activated = True
         mod.rod_to_u(p["rod"])
         mod.rod_to_u(gen.as_form(p["rod"], 1 + int(abs(p["rod"][0]) * 1e9) % 2))
+        irod = [int(round(x * 3)) for x in np.tanh(np.asarray(p["rod"]) * 1e3)] if abs(p["w_deg"]) < 360 else [1, -2, 3]
+        for form in range(4):                      # whole-number vectors as list / tuple / float array / integer array
+            mod.rod_to_u(gen.as_form(irod, form))
         mod.form_omega_mat(a[0])
         mod.form_omega_mat_general(a[0], a[1], a[2])
         mod.quart_to_omega(p["w_deg"], a[1], a[2])
